@@ -56,6 +56,34 @@ pub fn op_cmp(p: &Pointer, q: &Pointer) -> String {
         eqi!(PointerBuf, String, &pb, &qs),       // 18 PointerBuf == String
         eqi!(String, PointerBuf, &ps, &qb),       // 19 String == PointerBuf
     ];
+    // `!=` is `PartialEq::ne`, a provided method an impl may override: it must be the negation of `eq`, impl by impl
+    macro_rules! nei {
+        ($l:ty, $r:ty, $a:expr, $b:expr) => {
+            <$l as PartialEq<$r>>::ne($a, $b)
+        };
+    }
+    let nes: [bool; 20] = [
+        nei!(Pointer, Pointer, p, q),             // 0  Pointer != Pointer
+        nei!(&Pointer, &Pointer, &p, &q),         // 1  &Pointer != &Pointer
+        nei!(PointerBuf, PointerBuf, &pb, &qb),   // 2  PointerBuf != PointerBuf
+        nei!(Pointer, PointerBuf, p, &qb),        // 3  Pointer != PointerBuf
+        nei!(PointerBuf, Pointer, &pb, q),        // 4  PointerBuf != Pointer
+        nei!(&Pointer, PointerBuf, &p, &qb),      // 5  &Pointer != PointerBuf
+        nei!(PointerBuf, &Pointer, &pb, &q),      // 6  PointerBuf != &Pointer
+        nei!(Pointer, str, p, qt),                // 7  Pointer != str
+        nei!(str, Pointer, pt, q),                // 8  str != Pointer
+        nei!(Pointer, &str, p, &qt),              // 9  Pointer != &str
+        nei!(&str, Pointer, &pt, q),              // 10 &str != Pointer
+        nei!(Pointer, String, p, &qs),            // 11 Pointer != String
+        nei!(String, Pointer, &ps, q),            // 12 String != Pointer
+        nei!(&Pointer, String, &p, &qs),          // 13 &Pointer != String
+        nei!(PointerBuf, str, &pb, qt),           // 14 PointerBuf != str
+        nei!(str, PointerBuf, pt, &qb),           // 15 str != PointerBuf
+        nei!(PointerBuf, &str, &pb, &qt),         // 16 PointerBuf != &str
+        nei!(&str, PointerBuf, &pt, &qb),         // 17 &str != PointerBuf
+        nei!(PointerBuf, String, &pb, &qs),       // 18 PointerBuf != String
+        nei!(String, PointerBuf, &ps, &qb),       // 19 String != PointerBuf
+    ];
     let eq_field = if eqs.iter().all(|b| *b) {
         "1".to_string()
     } else if eqs.iter().all(|b| !*b) {
@@ -123,6 +151,9 @@ pub fn op_cmp(p: &Pointer, q: &Pointer) -> String {
     // ---- laws ----
     let want = pt.cmp(qt);
     let mut law_ops = Law::new();
+    for (i, (e, n)) in eqs.iter().zip(nes.iter()).enumerate() {
+        law_ops.ck(*n == !*e, &format!("ne_is_not_the_negation_of_eq_in_impl_{i}"));
+    }
     for x in &ords {
         law_ops.ck(x.lt == (want == Ordering::Less), &format!("{}_lt", x.name));
         law_ops.ck(x.le == (want != Ordering::Greater), &format!("{}_le", x.name));
@@ -387,6 +418,32 @@ pub fn op_zc_ptr(p: &Pointer) -> String {
         zc!("starts_with", p.starts_with(other));
         zc!("ends_with", p.ends_with(other));
         zc!("intersection", p.intersection(other));
+    }
+    // … and against pointers that part ways with P at an *escaped* token (every prefix of P's first tokens followed by one token
+    // with `~0` / `~1` in it), in both directions: comparing tokens by what they decode to would allocate exactly there
+    {
+        let toks: Vec<String> = p.tokens().map(|t| t.decoded().into_owned()).collect();
+        let mut sibs: Vec<PointerBuf> = Vec::new();
+        for k in 0..=toks.len().min(3) {
+            for tail in ["a/b", "~", "~/~1"] {
+                let mut b = PointerBuf::from_tokens(toks[..k].iter().map(|t| t.as_str()));
+                b.push_back(tail);
+                sibs.push(b.clone());
+                b.push_back("more");
+                sibs.push(b);
+            }
+        }
+        for other in &sibs {
+            let other: &Pointer = other;
+            zc!("strip_prefix", p.strip_prefix(other));
+            zc!("strip_suffix", p.strip_suffix(other));
+            zc!("starts_with", p.starts_with(other));
+            zc!("ends_with", p.ends_with(other));
+            zc!("intersection", p.intersection(other));
+            zc!("intersection", other.intersection(p));
+            zc!("starts_with", other.starts_with(p));
+            zc!("strip_prefix", other.strip_prefix(p));
+        }
     }
     zc!("root", Pointer::root());
     zc!("buf_new", PointerBuf::new());
